@@ -25,3 +25,14 @@ package actions
 //@   invariant runes(evaluatedText) <= r.session.(*engine.session).engine.(*engine.engine).options.MaxTemplateChars
 //@   invariant forall k int :: 0 <= k && k < len(evaluatedAttachments) ==> len(string(evaluatedAttachments[k])) <= flows.MaxAttachmentLength
 //@   invariant forall k int :: 0 <= k && k < len(evaluatedQuickReplies) ==> runes(evaluatedQuickReplies[k]) <= flows.MaxQuickReplyLength
+
+// ---- C20 (run side of the dependencies clause): a reference with a UUID is resolved to the asset with that UUID or not at
+// all - so the assets a run touches through fixed references are the ones inspection lists. (GroupAssets.Get is a lookup
+// in the index NewGroupAssets builds by UUID: trusted clause.)
+//@ func resolveGroups
+//@   havocs EvaluateTemplate, NewErrorf, NewDependencyError, FindByName, Session, Assets, Groups
+//@   requires forall j int :: 0 <= j && j < len(references) ==> references[j] != nil
+//@   ensures [fixed_by_uuid] forall k int :: 0 <= k && k < len(result) ==> (result[k] != nil && (exists j int :: 0 <= j && j < len(references) && (references[j].UUID == "" || result[k].UUID() == references[j].UUID)))
+//@ loop 1
+//@   invariant $i >= -1
+//@   invariant forall k int :: 0 <= k && k < len(groups) ==> (groups[k] != nil && (exists j int :: 0 <= j && j <= $i && (references[j].UUID == "" || groups[k].UUID() == references[j].UUID)))
